@@ -381,11 +381,9 @@ def violation_key(cand, rp) -> str:
 # Genuine defects of the unchanged tree that were reported to the maintainer of known_findings.json.  Until the entry
 # exists they are neither VIOLATION nor KNOWN-FINDING (BUILDER_BRIEF): they are listed as inconclusive + printed as
 # REPORTED-FINDING.  With the entry present run.violation() turns them into KNOWN-FINDING.
-REPORTED = {
-    "value-stored-by-reference/aligned-set_slice":
-        "ByteVec.set_slice(start, stop, value: ByteVec) on the aligned fast path stores the value object itself as a "
-        "chunk: later writes to the source vector show up in the destination (and in copies of it)",
-}
+# (the aligned-set_slice by-reference store was reported this way, then repaired in /repo -- see known_findings.json,
+# status "fixed" -- so nothing is pending and any recurrence is a VIOLATION again)
+REPORTED = {}
 
 
 def report(run, cls, key, what, witness):
@@ -520,8 +518,9 @@ def _main(run, tier, blocks, jobs, cap_s, tmpdir, want_z, want_p, want_s):
     prun = None
     p_cap = 75 if tier == "quick" else 300
     if want_p:
-        prun = chx07.Runner(tier, tmpdir, common.REPO_SRC, p_cap, jobs=max(2, jobs // 2) if want_z else jobs,
-                            deadline=t_start + (190 if tier == "quick" else 24 * 60))
+        prun = chx07.Runner(tier, tmpdir, common.REPO_SRC, p_cap, jobs=max(2, jobs // 2 + 1) if want_z else jobs,
+                            deadline=t_start + (185 if tier == "quick" else 24 * 60),
+                            hard_stop=t_start + (228 if tier == "quick" else 29 * 60))
         if not prun.available():
             rc = os.system(f"cd {common.VERIF} && ./setup.sh >/dev/null 2>&1")
             if not prun.available():
@@ -568,7 +567,7 @@ def _main(run, tier, blocks, jobs, cap_s, tmpdir, want_z, want_p, want_s):
         per_block: dict = {}
         sample_per: dict = {}
         ctx = mp.get_context("fork")
-        zjobs = max(2, jobs - (3 if prun else 0))
+        zjobs = max(2, jobs - (5 if prun else 0))
         with ctx.Pool(processes=zjobs) as pool:
             for r in pool.imap_unordered(_unit, units, chunksize=1):
                 if "sevm" in r:
@@ -713,10 +712,11 @@ def _main(run, tier, blocks, jobs, cap_s, tmpdir, want_z, want_p, want_s):
                    "ranges": {n: [lo, hi] for n, lo, hi in c["ints"]}}
             p_rows.append(row)
             if c["post"] == "False":  # reachability twin
-                tw_run += 0 if "not run" in r["msg"] else 1
+                starved = "not run" in r["msg"] or "wall-clock timeout" in r["msg"]
+                tw_run += 0 if starved else 1
                 if r["status"] == "counterexample":
                     tw_ok += 1
-                elif "not run" in r["msg"]:
+                elif starved:
                     run.inconc("P.twin", c["name"], r["msg"])
                 else:
                     run.harness_error(f"route P twin {c['name']} was not refuted ({r['status']}: {r['msg'][:120]})")
